@@ -22,6 +22,7 @@ PROP = dict(
                        "Comdex.C05.order_within_amount", "Comdex.C05.order_within_amount_after_batch",
                        "Comdex.C05.order_within_amount_step", "Comdex.C05.offered_amount_within_open",
                        "Comdex.C05.place_ok_limit_order", "Comdex.C05.order_within_amount_validated",
+                       "Comdex.C05.placed_price_within_limit",
                        "Comdex.C05.market_order_price_on_grid", "Comdex.C05.mm_order_ticks_on_grid",
                        "Comdex.C05.order_within_amount_all_orders",
                        "Comdex.C05.pool_buy_amount_on_curve", "Comdex.C05.pool_sell_amount_on_curve",
@@ -34,12 +35,17 @@ PROP = dict(
                        "Comdex.C05.ranged_limit_orders_covered", "Comdex.C05.ranged_pool_offers_within_reserves",
                        "Comdex.C05.base_conserved_counterexample"],
     harness_tests=["TestC05", "TestC05Keeper"],
+    monitors=["base_conserved", "base_conserved_unexplained", "quote_dust", "quote_dust_exceeds_fills", "fill_within_limits",
+              "fill_price_within_limit", "matched_receives_positive", "found_price_in_spread", "found_price_iff_crossing",
+              "pool_within_reserves_and_curve", "order_within_amount", "order_limit_respected", "placed_price_within_limit"],
     trusted_base=[KERNEL_TB, HARNESS_TB, DEC_TB,
                   "Model/AmmMatch.lean is hand-written from x/liquidity/amm/{match,orderbook,util,order}.go and "
                   "x/liquidity/types/order.go (HasPriority); tied by running the real NewOrderBook / Match / MatchAtSinglePrice / "
                   "FindMatchableAmountAtSinglePrice / PriceDirection / SortOrders / DistributeOrderAmountToOrders / MatchableAmount / "
-                  "FillOrder / FindMatchPrice / MakeView amounts / tick.go primitives / BasicPool curve functions / PoolBuyOrders / "
-                  "PoolSellOrders on real BaseOrder / UserOrder / PoolOrder / BasicPool objects; Model/AmmKeeper.lean (NewUserOrder, "
+                  "FillOrder / FindMatchPrice / MakeView amounts / tick.go primitives / BasicPool and RangedPool curve functions / "
+                  "DeriveTranslation / PoolBuyOrders / PoolSellOrders on real BaseOrder / UserOrder / PoolOrder / BasicPool / RangedPool "
+                  "objects; Model/AmmOrders.lean (market order price, MMOrderTicks, cancelMMOrder) by real MsgMarketOrder / MsgMMOrder "
+                  "through the message router; Model/AmmKeeper.lean (NewUserOrder, "
                   "ApplyMatchResult write-back, expiry, pruning) is tied by driving the real liquidity keeper over several batches "
                   "(MsgLimitOrder through the message router, EndBlocker / BeginBlocker) and comparing every stored order after every batch and comparing every order's (open, paid, received, "
                   "matched), quoteCoinDiff, match price, direction and outcome on every call",
@@ -49,13 +55,19 @@ PROP = dict(
                  "prices are positive; order states are well-formed (0 <= paid, 0 <= open <= amount, the remaining offer coin covers "
                  "what MatchableAmount allows: buy paid <= offer, sell paid + open <= offer) — what NewUserOrder/NewPoolOrder establish",
                  "FindMatchPrice theorems: order prices are ticks of the precision used (OnGrid), 10^prec < 2^300; with pool curves in the "
-                 "view (MultipleOrderViews) and for ranged pools the price / the pool orders are still inputs of the model",
-                 "keeper-level theorems (order_within_amount*): one pair without pools, limit orders only (no cancel / market / MM "
-                 "orders, no bank transfers and swap fees); a placed order's message price, fitted to the grid, is a positive tick "
-                 "(PlaceOk; proved for buy orders from lowestTick <= price <= highestTick, compared with the stored price for all)",
-                 "pool theorems: basic pools, price limits within [10^-15, 10^18]; the BuyAmountTo order at the price limit is monitored only"],
-    rule="TestC05Keeper: each case is one fresh pair on the real keeper with 3-8 batches of real MsgLimitOrders (lifespans 0 / a few "
-         "blocks / 1 h; directed: carried-over orders partially filled at better-than-limit prices, later opposite liquidity); "
+                 "view (MultipleOrderViews) the first-batch price is still an input of the model",
+                 "keeper-level theorems (order_within_amount*): one pair without pools; limit, market and MM orders (no cancel messages, "
+                 "no bank transfers and swap fees); the price stored for an order is a positive grid tick (PlaceOk / GridPrice: proved "
+                 "for limit orders of both directions with lowestTick <= price <= highestTick, for market orders when last*(1+-ratio) "
+                 "is in that range, for MM ladders whose range ends are grid ticks)",
+                 "pool theorems: basic pools with price limits within [10^-15, 10^18]; ranged pools for every price, for any translation "
+                 "with non-negative virtual reserves (monitored on every real pool, not proved of DeriveTranslation); the BuyAmountTo / "
+                 "SellAmountTo order at the price limit is proved covered by the reserves and otherwise monitored only",
+                 "the dust clause is proved in the form that is true of the code: dust*10^18 <= hi*L + fills*(10^18-1) with L the base coin "
+                 "dropped by defect D2; the clause as written (dust < fills) is refuted (quote_dust_counterexample) and holds iff L = 0"],
+    rule="TestC05Keeper: each case is one fresh pair on the real keeper with 3-8 batches of real MsgLimitOrders, MsgMarketOrders and "
+         "MsgMMOrders (lifespans 0 / a few blocks / 1 h; directed: carried-over orders partially filled at better-than-limit prices, "
+         "later opposite liquidity, MM ladders re-placed in a later / the same batch); "
          "TestC05: each case is one generated order book (1-12 real order objects: tick prices 1e-14..1e20 at precision 1-4, amounts "
          "straddling one quote unit / equal groups / tiny / huge, batch ids 0-3, user+pool or plain orders, offers exact/short/surplus) "
          "with one or more calls of the real engine on it; distinct = distinct trace text, non-trivial = at least one call matched",
@@ -68,17 +80,20 @@ META = dict(
     text="Kernel-checked for every list of well-formed orders, every positive price and last price: Match / MatchAtSinglePrice / "
          "DistributeOrderAmountToTick / DistributeOrderAmountToOrders never reach FillOrder's panic, terminate and never divide by zero; "
          "every order stays within offer and amount; every fill is at a price within the order's limit, so buyers pay at most and sellers "
-         "receive at least the limit value up to one quote unit per fill; a filled order receives a positive amount; dust of conserved "
-         "rounds is in [0, #fills); the quoteCoinDiff returned by Match / MatchAtSinglePrice is exactly buyers' payments minus sellers' "
-         "receipts. Base conservation is proved for the buy side always and for the whole Match when no sell-side distribution loses a "
+         "receive at least the limit value up to one quote unit per fill; a filled order receives a positive amount; the quoteCoinDiff "
+         "returned by Match / MatchAtSinglePrice is exactly buyers' payments minus sellers' receipts, never negative, and at most the value "
+         "of the base coin defect D2 dropped plus less than one quote unit per individual fill - composed over all ticks, groups and rounds "
+         "(dust < #fills wherever base coin is conserved; refuted in general by a kernel-checked counterexample). Base conservation is proved for the buy side always and for the whole Match when no sell-side distribution loses a "
          "remainder (decidable ghost), and REFUTED in general by a kernel-checked counterexample (defect D2: "
          "DistributeOrderAmountToOrders drops the remainder after a re-run) and characterised exactly (equality iff matchLossless). "
          "FindMatchPrice is modelled: a found price is a positive tick within [lowest sell, highest buy], found iff the book crosses; "
-         "the first batch at that price respects every limit and fills at one price. Basic-pool order generation is modelled: every "
-         "order of the tick loops is within the running reserves and not beyond the constant-product curve. The keeper's glue is "
-         "modelled (stored order -> NewUserOrder -> matcher -> ApplyMatchResult -> expiry): over any number of batches no stored "
-         "order is filled beyond its amount, pays more than its offer coin, or trades worse than its limit.",
+         "the first batch at that price respects every limit and fills at one price. Basic- and ranged-pool order generation is "
+         "modelled bit for bit (including DeriveTranslation): every order of the tick loops is within the running real reserves and not "
+         "beyond the (virtual) constant-product curve, so a filled pool order cannot lower the pool's product except by the rounding of "
+         "one quote unit. The keeper's glue is modelled (stored order -> NewUserOrder -> matcher -> ApplyMatchResult -> expiry) for "
+         "limit, market and MM orders: over any number of batches no stored order is filled beyond its amount, pays more than its offer "
+         "coin, or trades worse than its limit; the limit-order price fitting is proved for both directions.",
     note="Trusted: Lean kernel, Base/Dec.lean (differentially tested), the hand-written model as far as the correspondence run exercises "
-         "it, distinct order objects, no 315-bit overflow. The dust bound is proved for lists of conserved fills and "
-         "monitored (not proved) for the engine's composed result.",
+         "it, distinct order objects, no 315-bit overflow. Ranged pools: non-negative virtual reserves are a hypothesis (monitored); "
+         "pool curves inside FindMatchPrice's view are not modelled.",
 )
